@@ -112,17 +112,50 @@ class Run(object):
             self.ev = concrete.Evaluator(self.lib.preds)
         return self.lib
 
+    @staticmethod
+    def lemma_names_in(hints):
+        out = []
+        for h in hints:
+            if not isinstance(h, (tuple, list)) or not h:
+                continue
+            if h[0] in ('lemma', 'lemma?') and len(h) > 1 and isinstance(h[1], str):
+                out.append(h[1])
+            elif h[0] == 'forall_lemma':
+                out += [x for x in h[1:] if isinstance(x, str)][-1:] if len(h) != 6 else [h[4]]
+            for x in h[1:]:
+                if isinstance(x, (list, tuple)) and x and isinstance(x[0], (list, tuple)):
+                    out += Run.lemma_names_in(x)
+        return out
+
     def deductive(self, keys=(), lemmas=(), timeout_s=None, fuel=1):
+        """The listed functions AND, transitively, every function whose contract their proofs rely on at a modular call, and every
+        ghost lemma their ghost code instantiates: a defect inside a callee is noticed only at the callee's own obligations, so those
+        obligations belong to every property that depends on the callee."""
         lib = self.library()
         timeout_s = timeout_s or (30 if self.tier == 'quick' else 90)
         all_vcs = []
         owner = []
-        for key in keys:
+        keys = list(keys)
+        lemmas = list(lemmas)
+        seen_keys = set()
+        qi = 0
+        while qi < len(keys):
+            key = keys[qi]
+            qi += 1
+            if key in seen_keys:
+                continue
+            seen_keys.add(key)
             try:
                 vcs, info = driver.gen_function_vcs(lib, key)
             except Exception as e:      # contract error or engine bug: a checker problem, never a verdict
                 self.checker_errors.append('%s: %s\n%s' % (key, e, traceback.format_exc()))
                 continue
+            for k2 in info.get('callees', []):
+                if k2 not in seen_keys and k2 not in keys:
+                    keys.append(k2)
+            for l2 in info.get('lemmas', []):
+                if l2 not in lemmas:
+                    lemmas.append(l2)
             self.functions.append(info)
             if info['status'] in ('missing', 'out-of-fragment'):
                 # the function left the verifiable fragment: its ledgered obligations are undischarged
@@ -137,6 +170,12 @@ class Run(object):
             for vc in vcs:
                 all_vcs.append(vc)
                 owner.append(key)
+        li = 0
+        while li < len(lemmas):          # lemmas used inside the proofs of lemmas
+            for l2 in self.lemma_names_in(list(lib.lemmas[lemmas[li]].uses) + list(lib.lemmas[lemmas[li]].uses_step)):
+                if l2 in lib.lemmas and l2 not in lemmas:
+                    lemmas.append(l2)
+            li += 1
         for name in lemmas:
             lem = lib.lemmas[name]
             if lem.axiom:
